@@ -154,13 +154,20 @@ impl NameCompressor {
         let mut parent = 64u8;
         let mut parent_offset = None;
 
+        // Whether the last entry used was only shared in part. An entry
+        // stands for its own labels followed by the *whole* name of its
+        // parent, so nothing can be built on top of a partial match: neither
+        // may we follow its children nor register a new entry under it.
+        let mut partial = false;
+
         // Repeatedly look up entries that could be used for compression.
-        while !name.is_empty() {
+        while !name.is_empty() && !partial {
             match self.lookup_entry_for_revname(contents, name, parent) {
                 Some(entry) => {
-                    let tmp;
-                    (parent, name, tmp) = entry;
+                    let (tmp, whole);
+                    (parent, name, tmp, whole) = entry;
                     parent_offset = Some(tmp);
+                    partial = !whole;
 
                     // This entry was successfully used for compression.
                     // Record its use at this (approximate) position.
@@ -180,7 +187,10 @@ impl NameCompressor {
         // A compression pointer addresses the whole message, i.e. including
         // the 12-byte header, with 14 bits. Every label of the new entry has
         // to be reachable that way.
-        if !name.is_empty() && contents.len() + name.len() + 12 <= 16384 {
+        if !name.is_empty()
+            && !partial
+            && contents.len() + name.len() + 12 <= 16384
+        {
             // SAFETY: 'name' is a non-empty sequence of labels.
             let first = unsafe {
                 LabelIter::new_unchecked(name).next().unwrap_unchecked()
@@ -218,7 +228,7 @@ impl NameCompressor {
         contents: &[u8],
         name: &'n [u8],
         parent: u8,
-    ) -> Option<(u8, &'n [u8], u16)> {
+    ) -> Option<(u8, &'n [u8], u16, bool)> {
         // SAFETY: 'name' is a sequence of labels.
         let mut name_labels = unsafe { LabelIter::new_unchecked(name) };
         // SAFETY: 'name' is non-empty.
@@ -274,8 +284,9 @@ impl NameCompressor {
             // removed. The remainder of 'entry' does not match with 'name'.
             // 'name' can be compressed using this entry.
             let rest = name_labels.remaining();
+            let whole = entry.is_empty();
             let pos = pos + entry.len();
-            return Some((i as u8, rest, pos as u16));
+            return Some((i as u8, rest, pos as u16, whole));
         }
 
         None
@@ -319,13 +330,18 @@ impl NameCompressor {
         let mut parent = 64u8;
         let mut parent_offset = None;
 
+        // Whether the last entry used was only shared in part; see
+        // 'compress_revname()'.
+        let mut partial = false;
+
         // Repeatedly look up entries that could be used for compression.
-        while !name.is_empty() {
+        while !name.is_empty() && !partial {
             match self.lookup_entry_for_name(contents, name, parent, hash) {
                 Some(entry) => {
-                    let tmp;
-                    (parent, name, hash, tmp) = entry;
+                    let (tmp, whole);
+                    (parent, name, hash, tmp, whole) = entry;
                     parent_offset = Some(tmp);
+                    partial = !whole;
 
                     // This entry was successfully used for compression.
                     // Record its use at this (approximate) position.
@@ -345,7 +361,10 @@ impl NameCompressor {
         // A compression pointer addresses the whole message, i.e. including
         // the 12-byte header, with 14 bits. Every label of the new entry has
         // to be reachable that way.
-        if !name.is_empty() && contents.len() + name.len() + 12 <= 16384 {
+        if !name.is_empty()
+            && !partial
+            && contents.len() + name.len() + 12 <= 16384
+        {
             // Pick the entry that was least recently used (or uninitialized).
             //
             // By the invariants of 'last_use', it is guaranteed that this
@@ -380,7 +399,7 @@ impl NameCompressor {
         name: &'n [u8],
         parent: u8,
         hash: u16,
-    ) -> Option<(u8, &'n [u8], u16, u16)> {
+    ) -> Option<(u8, &'n [u8], u16, u16, bool)> {
         // SAFETY: 'name' is a non-empty sequence of labels.
         let name_labels = unsafe { LabelIter::new_unchecked(name) };
 
@@ -424,14 +443,14 @@ impl NameCompressor {
 
                     let rest = &name[..name.len() - entry.len()];
                     let hash = Self::hash_label(Self::last_label(rest));
-                    return Some((i as u8, rest, hash, pos as u16));
+                    return Some((i as u8, rest, hash, pos as u16, true));
                 } else {
                     // 'name' is a suffix of 'entry'. 'name' can be
                     // compressed using 'entry', and no labels will be left.
                     let rest = &name[..0];
                     let hash = 0u16;
                     let pos = pos + len - name.len();
-                    return Some((i as u8, rest, hash, pos as u16));
+                    return Some((i as u8, rest, hash, pos as u16, false));
                 }
             };
 
@@ -471,7 +490,7 @@ impl NameCompressor {
             let rest = &name[..name.len() - suffix_len];
             let hash = Self::hash_label(prev_in_name);
             let pos = pos + len - suffix_len;
-            return Some((i as u8, rest, hash, pos as u16));
+            return Some((i as u8, rest, hash, pos as u16, false));
         }
 
         None
